@@ -7,7 +7,7 @@
    its steps with the pipeline's Start / Complete t / Take / Emit (the pipeline is C03's
    NV.Io.Sched); the sink follows an arbitrary fault script.  This file only combines C14's
    theorems into the statement C03 makes: per-call results + bytes = single-threaded bytes. *)
-From Coq Require Import List Arith.
+From Coq Require Import List Arith NArith.
 From NV Require Import Sinks.Sink Sinks.SinkProofs Sinks.BgzfProofs Io.Sched Sinks.Mt Sinks.MtProofs Sinks.MtApp Sinks.MtAppProofs.
 Import ListNotations.
 
@@ -58,3 +58,28 @@ Proof.
   split; [exact H1|]. exists p. split; [exact H2|]. unfold st_file.
   rewrite <- (mt_out_is_st_out maxbuf frames Hm ops). exact H3.
 Qed.
+
+(* ---- entry point of C03's own correspondence kind `wapi`: one life of MultithreadedWriter seen
+        from the application thread (per-call results of write_all / flush / finish, inner calls,
+        sink bytes) under the synchronisation plan the harness forces through the gate hook ---- *)
+Definition c03_writer_api_case (P maxbuf : nat) (frames : list (list byte)) (plan : list bool)
+  (ops : list mop) (script : list fault) : option (list res * sink) :=
+  mta_model P maxbuf frames (mta_pol plan) ops (mkSink [] script 0).
+
+(* what the driver prints: result codes (0 = Ok, 1 = OutOfFuel, 10 + kind = Err), inner calls, bytes *)
+Definition api_code (r : res) : N :=
+  match r with Ok => 0%N | OutOfFuel => 1%N | Err e => (10 + e)%N end.
+
+Definition c03_writer_api_obs (P maxbuf : nat) (frames : list (list byte)) (plan : list bool)
+  (ops : list mop) (script : list fault) : option (list N * nat * list byte) :=
+  match c03_writer_api_case P maxbuf frames plan ops script with
+  | Some (rs, s) => Some (map api_code rs, scalls s, sbytes s)
+  | None => None
+  end.
+
+(* the strategy the harness forces is one of the joint schedules the API theorems quantify over *)
+Theorem c03_writer_api_case_is_a_run : forall P maxbuf frames plan ops script rs s',
+  c03_writer_api_case P maxbuf frames plan ops script = Some (rs, s') ->
+  exists sched, let x := mta_run P maxbuf frames ops sched (mkSink [] script 0) in
+    m_done x = true /\ rs = m_rs x /\ s' = snd (mt_result (m_pipe x)).
+Proof. intros P maxbuf frames plan ops script rs s' H. exact (mta_model_is_run P maxbuf frames _ _ _ _ _ H). Qed.
